@@ -520,7 +520,10 @@ def _eig_based_svd(A, need_U: bool = True, need_Vd: bool = True, inner_labels=[N
         S = np.sqrt(np.abs(L))  # abs to avoid `nan` due to accidentally negative values close to zero
 
     if trunc_params is not None:
-        piv, renormalize, trunc_err = truncate(S, trunc_params)
+        # truncate() expects a normalized spectrum, as in svd_theta()
+        norm_S = np.linalg.norm(S)
+        piv, new_norm, trunc_err = truncate(S / norm_S, trunc_params)
+        renormalize = new_norm * norm_S
         S = S[piv]
         S /= renormalize
         if need_U:
